@@ -157,6 +157,10 @@ def judge(case, obs):
     # connection does with stray post-handshake messages is C16's clause
     if obs["app"] and not case["hsDone"]:
         bad.append(("no-app-data-on-inadmissible", "application data delivered (%r) although the sequence is inadmissible" % obs["got"]))
+    # a late (post-completion) message the automaton does not admit in OPEN must abort the connection
+    # before the application data that follows it is delivered
+    if obs["app"] and case["hsDone"] and not spec_open:
+        bad.append(("late-message-aborts", "application data delivered (%r) after an inadmissible late message" % obs["got"]))
     if obs["app"] and not obs["app_ok"]:
         bad.append(("app-data-exact", "application data differs: %r" % obs["got"]))
     if not case["script"]:
